@@ -104,7 +104,6 @@ func TestC02Shard(t *testing.T) {
 		defer func() { _ = b.Close() }()
 		w := drv.NewWorld(cat, b, ep)
 		w.NoDeleteContainer = true
-		w.OnAdmission = follow(rec)
 		applyKnown(rec, w)
 		metricsKnown, parentKnown := ev.IsOpen("C02", fpMetrics), ev.IsOpen("C02", fpMetricsParent)
 		cc := &caseCtx{rec: rec, w: w, bound: uint64(cat.NC*uni.NObjects + 1)}
